@@ -685,7 +685,19 @@ func runHeap(c *Ctx) {
 			}
 		})
 	}
-	c.R.Add("HEAP-PATH", "reverse", core.FuncName(ep), p.Pos(ep.Pos()), revOK, "the collected walk is reversed in place with converging indices", fmt.Sprintf("ok=%v", revOK))
+	// the library form: slices.Reverse on the collected list (an instantiation of the generic function)
+	for _, rf := range revScope {
+		for _, ci := range core.Calls(rf) {
+			if cal := ci.Common().StaticCallee(); cal != nil && cal.Pkg != nil && cal.Pkg.Pkg.Path() == "slices" && strings.HasPrefix(cal.Name(), "Reverse") && len(ci.Common().Args) == 1 {
+				if rf == ep || core.Root(ci.Common().Args[0]) == ssa.Value(rf.Params[0]) {
+					revOK = true
+				}
+			} else if cal != nil && cal.Origin() != nil && cal.Origin().Pkg != nil && cal.Origin().Pkg.Pkg.Path() == "slices" && cal.Origin().Name() == "Reverse" {
+				revOK = true
+			}
+		}
+	}
+	c.R.Add("HEAP-PATH", "reverse", core.FuncName(ep), p.Pos(ep.Pos()), revOK, "the collected walk is reversed in place (converging indices, or slices.Reverse)", fmt.Sprintf("ok=%v", revOK))
 }
 
 // indexParam: v is a load of &slice[paramK]; returns K (0 if not).
